@@ -159,6 +159,7 @@ func emitDC(c *hlib.Ctx, s model3d.Solid, delta float64, family string) {
 	opBase := fmt.Sprintf("c12 dc %d %d %d %s family=%s delta=%v", nx, ny, nz, bitStr(l.bits), family, delta)
 	ref := dcSetting{1, 1 << 40, 0, 0, true}
 	var refHash string
+	mark(opBase + " " + ref.String())
 	refRes := guarded(func() string {
 		m := runDCOnce(s, delta, ref)
 		refHash = exactHash(m)
@@ -176,6 +177,7 @@ func emitDC(c *hlib.Ctx, s model3d.Solid, delta float64, family string) {
 	for _, st := range settings {
 		st := st
 		var h string
+		mark(opBase + " " + st.String())
 		res := guarded(func() string {
 			m := runDCOnce(s, delta, st)
 			h = exactHash(m)
@@ -212,10 +214,12 @@ func emitDC(c *hlib.Ctx, s model3d.Solid, delta float64, family string) {
 	for _, v := range []dcSetting{{1, 1 << 40, 0, model3d.DualContouringTriangleModeSharpest, true},
 		{1, 1 << 40, 0, model3d.DualContouringTriangleModeFlattest, true}, {1, 1 << 40, 0, 0, false}} {
 		var h0 string
+		mark(fmt.Sprintf("c12 same dcmode nx=%d ny=%d nz=%d bits=%s family=%s delta=%v %s", nx, ny, nz, bitStr(l.bits), family, delta, v.String()))
 		r0 := guarded(func() string { h0 = exactHash(runDCOnce(s, delta, v)); return "ok" })
 		for _, alt := range []dcSetting{{8, 1, 0, v.mode, v.clip}, {0, bufs[2+c.Rng.Intn(6)], 3, v.mode, v.clip}} {
 			alt := alt
 			var h1 string
+			mark(fmt.Sprintf("c12 same dcmode nx=%d ny=%d nz=%d bits=%s family=%s delta=%v %s", nx, ny, nz, bitStr(l.bits), family, delta, alt.String()))
 			r1 := guarded(func() string { h1 = exactHash(runDCOnce(s, delta, alt)); return "ok" })
 			same := "same"
 			if r0 != "ok" || r1 != "ok" || h0 != h1 {
